@@ -103,14 +103,15 @@ Theorem C08_full_auc_negate :
 Proof. exact full_auc_negate. Qed.
 Print Assumptions C08_full_auc_negate.
 
-(* Increasing affine maps that commute with np.nextafter (succ (a*x+b) == a*succ x + b and the same for pred: in
-   binary64 the scalings by a power of two without over/underflow; on the integer carrier every translation): then
-   EVERY threshold returned by the six threshold_at_* functions is mapped by the same map — every target, the
-   one-ulp sentinels included, every method, all four configurations, ties, easy samples, empty classes (both
-   sides raise) — with no interior hypothesis ... *)
+(* Increasing affine maps that commute with np.nextafter on the scores of the object ([commutes_on]:
+   succ (a*x+b) == a*succ x + b and the same for pred, for every score x; decidable on a given object by
+   [commutes_onb].  In binary64: scalings by a power of two as long as no score or image is subnormal or
+   overflows; on the integer carrier every translation).  Then EVERY threshold returned by the six threshold_at_*
+   functions is mapped by the same map — every target, the one-ulp sentinels included, every method, all four
+   configurations, ties, easy samples, empty classes (both sides raise) — with no interior hypothesis ... *)
 Theorem C08_affine_thresholds_compatible :
   forall (succ pred : Q -> Q) (a b : Q) (s : scores) (mt : metric6) (u : Q) (m : method), 0 < a -> wf s ->
-  (forall x, succ (a * x + b) == a * succ x + b) -> (forall x, pred (a * x + b) == a * pred x + b) ->
+  commutes_on succ pred a b (pos s ++ neg s) ->
   match threshold_at succ pred mt (affine_scores a b s) u m, threshold_at succ pred mt s u m with
   | Ret t', Ret t => t' == a * t + b
   | Raise, Raise => True
@@ -125,7 +126,7 @@ Print Assumptions C08_affine_thresholds_compatible.
    statement is checked on the implementation (harness/props/C08.py, C06.py). *)
 Theorem C08_eer_affine_compatible :
   forall (succ pred : Q -> Q) (a b : Q) (fuel : nat) (s : scores), 0 < a -> wf s ->
-  (forall x, succ (a * x + b) == a * succ x + b) -> (forall x, pred (a * x + b) == a * pred x + b) ->
+  commutes_on succ pred a b (pos s ++ neg s) ->
   match eer succ pred fuel (affine_scores a b s), eer succ pred fuel s with
   | Ret (t', e'), Ret (t, e) => e' = e /\ t' == a * t + b
   | Raise, Raise => True
@@ -140,19 +141,28 @@ Theorem C08_find_root_sign_only : forall fuel f g xa xe ff xtol, same_sign f g -
 Proof. exact find_root_sign_ext. Qed.
 Print Assumptions C08_find_root_sign_only.
 
-(* the commutation hypotheses are satisfiable (integer carrier, translation by 7), and on that carrier the
-   conclusion is visible on a concrete overlapping object; in binary64 a scaling by 4 of an object with a
-   non-trivial EER gives the same EER and 4 times the threshold *)
+Theorem C08_commutes_decidable : forall succ pred a b l,
+  commutes_onb succ pred a b l = true -> commutes_on succ pred a b l.
+Proof. exact commutes_onb_ok. Qed.
+
+(* the hypotheses are satisfiable in binary64: scaling by 4 commutes with nextafter on the eight scores of this
+   object (decided by computation), the object is sorted, and the conclusion is visible: same EER (non-zero),
+   4 times the threshold; likewise a translation by 7 on the integer carrier *)
 Example C08_eer_affine_example :
-  let s := mk_scores [1#1; 3#1; 5#1; 7#1] [0#1; 2#1; 4#1; 6#1] 0 1 Pos Pos false in
-  ((forall x, (x + 7) + 1 == (x + 1) + 7) /\ (forall x, (x + 7) - 1 == (x - 1) + 7)) /\
-  match eer (fun x => x + 1) (fun x => x - 1) 64 (affine_scores 1 7 s), eer (fun x => x + 1) (fun x => x - 1) 64 s with
-  | Ret (t', e'), Ret (t, e) => Qeqb e' e && Qeqb t' (t + 7) && Qltb 0 e
-  | _, _ => false end = true /\
+  let s := mk_scores [1#1; 3#1; 5#1; 7#1] [1#2; 2#1; 4#1; 6#1] 0 1 Pos Pos false in
+  commutes_on succ64 pred64 4 0 (pos s ++ neg s) /\
   match eer succ64 pred64 64 (affine_scores 4 0 s), eer succ64 pred64 64 s with
   | Ret (t', e'), Ret (t, e) => Qeqb e' e && Qeqb t' (4 * t) && Qltb 0 e
+  | _, _ => false end = true /\
+  commutes_on (fun x => x + 1) (fun x => x - 1) 1 7 (pos s ++ neg s) /\
+  match eer (fun x => x + 1) (fun x => x - 1) 64 (affine_scores 1 7 s), eer (fun x => x + 1) (fun x => x - 1) 64 s with
+  | Ret (t', e'), Ret (t, e) => Qeqb e' e && Qeqb t' (t + 7) && Qltb 0 e
   | _, _ => false end = true.
-Proof. split; [split; intro x; ring|]. split; vm_compute; reflexivity. Qed.
+Proof.
+  split; [apply commutes_onb_ok; vm_compute; reflexivity|].
+  split; [vm_compute; reflexivity|].
+  split; [apply int_translation_commutes|vm_compute; reflexivity].
+Qed.
 
 (* binary64 instance with a cross-class tie and easy samples *)
 Example C08_auc_example :
